@@ -54,45 +54,74 @@ func c20R1(c *Ctx) {
 	cal := Callee(info, merge)
 	c.Check(cal.Pkg() != nil && strings.Contains(cal.Pkg().Path(), "json-patch"), "C20.R1", "merge implementation is evanphx/json-patch", p.Pos(merge), fn.Key(), "jsonpatch.MergePatch", cal.FullName())
 	c.Check(identObj(info, merge.Args[0]) == base && identObj(info, merge.Args[1]) == top, "C20.R1", "MergePatch(document = base, patch = overlay)", p.Pos(merge), fn.Key(), "MergePatch(baseCfg, topCfg)", exprString(merge.Args[0])+", "+exprString(merge.Args[1]))
-	// empty overlay: returns unmarshal(base)
-	okEmpty := false
-	ast.Inspect(fn.Decl.Body, func(nd ast.Node) bool {
-		is, ok := nd.(*ast.IfStmt)
-		if !ok {
-			return true
+	// what is unmarshalled: the base when the overlay is empty, the library's output otherwise
+	_, mlhs := assignedFromCall(fn, merge)
+	var mergedObj types.Object
+	if len(mlhs) == 2 {
+		mergedObj = mlhs[0]
+	}
+	topLen := "len(" + top.Name() + ")"
+	c.Require("C20.R1", "the merge library is not consulted for an empty overlay", fn, merge, topLen+" != 0", nil)
+	fe := NewFactEngine(p, fn)
+	nonEmpty, _ := fe.Expr(topLen+" != 0", merge.Pos())
+	nUn := 0
+	for _, cs := range p.CallsIn(fn) {
+		if cs.Callee == nil || cs.Callee.Name() != "Unmarshal" || len(cs.Call.Args) != 2 {
+			continue
 		}
-		s := strings.ReplaceAll(exprString(is.Cond), " ", "")
-		if s != "len("+top.Name()+")==0" {
-			return true
-		}
-		usesBase, returns := false, false
-		ast.Inspect(is.Body, func(k ast.Node) bool {
-			if call, ok := k.(*ast.CallExpr); ok && calleeName(info, call) == "Unmarshal" && identObj(info, call.Args[0]) == base {
-				usesBase = true
+		nUn++
+		u := cs.Call
+		src := identObj(info, u.Args[0])
+		switch {
+		case src == base:
+			c.Require("C20.R1", "empty overlay changes nothing", fn, u, topLen+" == 0", nil)
+		case src != nil && src == mergedObj:
+			c.OK("C20.R1", "the result is the unmarshalled merge output", p.Pos(u), fn.Key(), "json.Unmarshal(<MergePatch result>, config)")
+			// and this decode is not reached with an empty overlay (the base decode is)
+			c.Require("C20.R1", "empty overlay changes nothing", fn, u, topLen+" != 0", nil)
+		case src != nil:
+			// a variable that holds the base or the merge output
+			okDefs := true
+			var mergeDefs []ast.Node
+			for _, d := range varDefs(fn, src) {
+				switch {
+				case d.rhs == nil:
+					if _, isDecl := d.node.(*ast.ValueSpec); !isDecl {
+						okDefs = false
+					}
+				case identObj(info, d.rhs) == base:
+				case mergedObj != nil && identObj(info, d.rhs) == mergedObj:
+					mergeDefs = append(mergeDefs, d.node)
+					c.Require("C20.R1", "the merge output replaces the base only for a non-empty overlay", fn, d.node, topLen+" != 0", nil)
+				default:
+					okDefs = false
+				}
 			}
-			if _, ok := k.(*ast.ReturnStmt); ok {
-				returns = true
+			c.Check(okDefs && len(mergeDefs) > 0, "C20.R1", "the decoded bytes are the base or the merge output", p.Pos(u), fn.Key(), src.Name()+" := base | MergePatch result", "another definition of "+src.Name())
+			// with a non-empty overlay every path to the decode installs the merge output
+			q := NewPathQuery(p, fn, nil)
+			q.Prune = func(cond ast.Expr, takeTrue bool) bool {
+				if nonEmpty == nil {
+					return false
+				}
+				v, known := decideUnder(fe, nonEmpty, fe.Cond(cond))
+				return known && v != takeTrue
 			}
-			if call, ok := k.(*ast.CallExpr); ok && calleeName(info, call) == "MergePatch" {
-				usesBase = false
-			}
-			return true
-		})
-		okEmpty = usesBase && returns
-		return true
-	})
-	c.Check(okEmpty, "C20.R1", "empty overlay changes nothing", p.Pos(fn.Decl), fn.Key(), "if len(topCfg) == 0 { return unmarshal(baseCfg) }", "not recognised")
-	// the merged bytes are what gets unmarshalled
-	_, lhs := assignedFromCall(fn, merge)
-	okUn := false
-	if len(lhs) == 2 && lhs[0] != nil {
-		for _, cs := range p.CallsIn(fn) {
-			if cs.Callee != nil && cs.Callee.Name() == "Unmarshal" && cs.Call.Pos() > merge.End() && identObj(info, cs.Call.Args[0]) == lhs[0] {
-				okUn = true
-			}
+			w := q.Escapes(nil, isExactly(u), func(n ast.Node) bool {
+				for _, m := range mergeDefs {
+					if n.Pos() <= m.Pos() && m.End() <= n.End() {
+						return true
+					}
+				}
+				return false
+			}, nil)
+			c.Check(w == nil, "C20.R1", "the result is the unmarshalled merge output", p.Pos(u), fn.Key(), "must-pass (overlay non-empty): "+src.Name()+" = MergePatch result → json.Unmarshal("+src.Name()+", config)", "path: "+p.describePath(w))
+			c.OK("C20.R1", "empty overlay changes nothing", p.Pos(u), fn.Key(), "the merge output is installed only for a non-empty overlay (above); otherwise "+src.Name()+" is the base")
+		default:
+			c.Bad("C20.R1", "the decoded bytes are the base or the merge output", p.Pos(u), fn.Key(), "json.Unmarshal(base | MergePatch result, config)", exprString(u.Args[0]))
 		}
 	}
-	c.Check(okUn, "C20.R1", "the result is the unmarshalled merge output", p.Pos(merge), fn.Key(), "json.Unmarshal(<MergePatch result>, config)", "not recognised")
+	c.Floor("C20.R1", "json.Unmarshal calls in MergeConfigAndUnmarshal", 1, nUn)
 	// no post-merge adjustment of Config fields in the merge function
 	cfg := p.LookupObj(daemonTypesPkg, "Config")
 	n := 0
